@@ -371,7 +371,8 @@ def check_mode(ctx, p, impl, stats):
             st["contended"] += 1; cshapes.add(sh)
         for ft in features(mode, i):
             st["features"][ft] = st["features"].get(ft, 0) + 1
-        if bad_end(i) and "hangs" in bad_end(i):
+        if bad_end(i) and "hangs" in bad_end(i) and st.get("hang_confirmations", 0) < 3:
+            st["hang_confirmations"] = st.get("hang_confirmations", 0) + 1
             # confirm alone: on an overloaded machine a case can exceed the harness' watchdog without being stuck
             one, _ = run_impl(ctx, impl, mode, [c], "confirm_" + mode, timeout=60)
             if one.get(c["id"]) and one[c["id"]]["end"] is not None and not bad_end(one[c["id"]]):
